@@ -346,6 +346,71 @@ func runC17(c *rt.Ctx) {
 		c.State(int64(states))
 		c.Set("bfs_depth", depth)
 	}
+	// ---- (a2) many keys: nothing that depends on how full the backend is may change what it holds -
+	if c.Mine(1) {
+		InBubble(c.T, func() {
+			h0, _ := inmem.New()
+			inmem.VerifReset(h0)
+			inmemForceFree(h0)
+			m := refmodel.New(uint32(time.Now().Unix()))
+			total := 2500
+			if c.Thorough() {
+				total = 70000
+			}
+			bad := false
+			do := func(op wire.Op) {
+				if bad {
+					return
+				}
+				h, _ := inmem.New()
+				m.Now = uint32(time.Now().Unix())
+				e := ExpectH(m, op)
+				r := CallHandler(h, op)
+				c.Eval(1)
+				if cl, d := DiffH(e, r); cl != "" {
+					bad = true
+					c.Violation(fmt.Sprintf("C17 %s op=%s many-keys", cl, op.Kind), fmt.Sprintf("with %d keys stored: %s: %s", len(m.M), op, d), map[string]interface{}{"keys_stored": len(m.M), "op": op.String()})
+				}
+			}
+			key := func(i int) string { return fmt.Sprintf("bulk-%05d", i) }
+			checkAll := func(n int) {
+				step := 1
+				if n > 4000 {
+					step = n / 2000
+				}
+				for i := 0; i < n && !bad; i += step {
+					do(wire.Op{Kind: "get", Key: key(i)})
+				}
+				// the usual refusals still hold on old keys
+				do(wire.Op{Kind: "add", Key: key(0), Val: "usurper"})
+				do(wire.Op{Kind: "append", Key: key(1), Val: "+"})
+				do(wire.Op{Kind: "get", Key: key(0)})
+			}
+			for i := 0; i < total && !bad; i++ {
+				ttl := uint32(0)
+				if i%3 == 2 {
+					ttl = 1000 // some entries are temporary and live throughout
+				}
+				kind := "set"
+				if i%5 == 4 {
+					kind = "add"
+				}
+				do(wire.Op{Kind: kind, Key: key(i), Val: fmt.Sprintf("value-%d", i), Flags: uint32(i), TTL: ttl})
+				n := i + 1
+				if n&(n-1) == 0 || (n-1)&(n-2) == 0 || (n-2)&(n-3) == 0 || n%1000 == 0 || n == total {
+					checkAll(n)
+				}
+			}
+			// and after the temporary ones have expired
+			if !bad {
+				time.Sleep(1001 * time.Second)
+				checkAll(total)
+			}
+			c.Distinct("many-keys")
+			c.Nontrivial("many-keys")
+			c.Set("bulk_keys", total)
+		})
+	}
 	// ---- (b) all interleavings at lock granularity ---------------------------------------------
 	inits := [][]wire.Op{
 		nil,
